@@ -12,10 +12,18 @@ FUNCS = ["data:TimePoint.__init__", "data:TimeZone.__init__", "data:_bounds_chec
          "data:get_is_leap_year", "data:_get_days_in_year", "data:_get_days_in_month",
          "data:_get_weeks_in_year", "data:_get_ordinal_date_week_date_start",
          "data:_get_calendar_date_week_date_start", "data:_get_days_in_year_range",
-         "data:iter_months_days"]
+         "data:iter_months_days",
+         # each text notation: BadInputError exactly for the impossible values, in every mode
+         ("parsers:TimePointParser.parse", r"^([be]:(cal|ord|week)[-+]?/(none|hms:[be])/(none|-hhmm)|reduced\|.*|trunc\|.*|trunc-time\|.*/(none|-hhmm))$")]
 LEMMAS = ["opaque.dby.step", "opaque.dby.range", "wiy.range"]
 CANARIES = ["canary.week52"]
 EXPLANATION = (
+    "PROVED via each TEXT notation (the real TimePointParser.parse executed on symbolic "
+    "texts, all four calendar modes): for the complete calendar / ordinal / week forms "
+    "(basic and extended, signed expanded years, with and without time and zone), the "
+    "reduced forms, the truncated date forms and the time-only truncated forms, parsing "
+    "raises BadInputError exactly when the spelled values are impossible in the active "
+    "mode and otherwise returns the point with those fields. "
     "PROVED: TimePoint.__init__ (21 argument shapes: calendar/ordinal/week/reduced, time "
     "forms incl. decimals, zone, conflicts, truncated) raises BadInputError <=> the fields "
     "do not denote a date-time of the active mode - real month lengths of the real year, "
